@@ -8,6 +8,7 @@ package main
 import (
 	"bytes"
 	"sort"
+	"strings"
 
 	"github.com/aldas/go-modbus-client/server"
 )
@@ -70,19 +71,57 @@ func srvStream(r *rng, o srvStreamOpts) []byte {
 
 // ---------- srvasm ----------
 
-func srvAsmCase(mode int, chunks [][]byte) {
+// srvAsmRun drives one assembler with the chunks.  reuse: every chunk is copied into ONE read
+// buffer and handed over as buf[:n], as connection.handle does with its 300-byte buffer; after the
+// call the caller overwrites its buffer (it owns it again).
+func srvAsmRun(mode int, chunks [][]byte, reuse bool) V {
 	a := &server.ModbusTCPAssembler{Handler: srvHandler{mode}}
+	size := 300
+	for _, ch := range chunks {
+		if len(ch) > size {
+			size = len(ch)
+		}
+	}
+	buf := make([]byte, size)
 	var cum []byte
 	var steps []V
 	for _, ch := range chunks {
-		st := srvDirectStep(a, ch, &cum)
+		arg := ch
+		if reuse {
+			arg = buf[:copy(buf, ch)]
+		}
+		st := srvDirectStep(a, arg, &cum)
+		if reuse {
+			for i := range buf {
+				buf[i] = 0xEE
+			}
+		}
 		steps = append(steps, st)
 		l := st.(vList)
 		if l[2].(vInt) != 0 {
 			break // closed or panicked: the connection goroutine would stop reading
 		}
 	}
-	emit("srv_asm", L(I(mode), srvChunksV(chunks)), L(L(steps...), srvWhole(mode, srvConcat(chunks))))
+	return L(steps...)
+}
+
+func srvRender(v V) string {
+	var b strings.Builder
+	v.put(&b)
+	return b.String()
+}
+
+// srvAsmCase runs the chunks with fresh slices and with one reused read buffer; the second outcome
+// is emitted as a case of its own only when it differs (it then disagrees with the model)
+func srvAsmCase(mode int, chunks [][]byte) {
+	args := L(I(mode), srvChunksV(chunks))
+	whole := srvWhole(mode, srvConcat(chunks))
+	fresh := srvAsmRun(mode, chunks, false)
+	reused := srvAsmRun(mode, chunks, true)
+	emit("srv_asm", args, L(fresh, whole))
+	if srvRender(fresh) != srvRender(reused) {
+		emit("srv_asm", args, L(reused, whole))
+	}
 }
 
 // every one of the 2^(n-1) ways to cut s into non-empty chunks
@@ -364,6 +403,50 @@ func srvEmitConn(g *srvRig, mode, kind int, chunks [][]byte) {
 	emit("srv_conn", L(append([]V{I(mode), I(kind)}, args...)...), L(append(outc, srvWhole(mode, stream))...))
 }
 
+// srvEmitScript runs one connection whose reads follow the script (client kind 3): data with and
+// without a deadline error, empty deadline reads, write deadline enforced
+func srvEmitScript(g *srvRig, mode int, events []srvEvent) {
+	var stream []byte
+	for _, ev := range events {
+		stream = append(stream, ev.data...)
+	}
+	before := g.nerr.Load()
+	sc := newSrvScript(events)
+	rec := newSrvRec(sc)
+	g.lis.ch <- rec
+	select {
+	case <-sc.idle:
+		sc.sendEOF()
+	case <-rec.closed:
+	}
+	fail := srvWait(rec.closed)
+	rec.mu.Lock()
+	reads := srvReadsV(rec.reads, rec.flags)
+	rec.mu.Unlock()
+	outc := []V{L(), I(99), I(0)}
+	if fail == nil {
+		outc = g.connOutcome(rec, before)
+	}
+	emit("srv_conn", L(I(mode), I(3), reads, B(stream)), L(append(outc, srvWhole(mode, stream))...))
+}
+
+// srvEvents turns chunks into read events: how selects the error that comes with the data
+// (0 never, 1 always the deadline error, 2 mixed) and whether empty deadline reads are mixed in
+func srvEvents(r *rng, chunks [][]byte, how int, empties bool) []srvEvent {
+	var evs []srvEvent
+	for _, ch := range chunks {
+		if empties && r.intn(3) == 0 {
+			evs = append(evs, srvEvent{nil, r.intn(4) != 0}) // (0, deadline), rarely (0, nil)
+		}
+		dl := how == 1 || (how == 2 && r.bool())
+		evs = append(evs, srvEvent{ch, dl})
+	}
+	if empties && r.bool() {
+		evs = append(evs, srvEvent{nil, true})
+	}
+	return evs
+}
+
 // cuts of s that respect the frame ends (lock-step clients never have two requests in flight)
 func srvLockstepChunks(r *rng, s []byte) [][]byte {
 	ends := srvFrameEnds(s)
@@ -445,7 +528,66 @@ func streamSrvConn(seed uint64, thorough bool) {
 			srvEmitConn(g, 0, 1, srvCut(s, srvRandomCuts(ro, len(s))))
 		})
 	}
+	// --- reads that return bytes together with the deadline error, empty deadline reads (kind 3) ---
+	rs := newRng(seed ^ 0x5c217)
+	reqA := srvLegal(rs, 3, 0x3000, 0)
+	reqB := srvLegal(rs, 17, 0x3101, 0)
+	ab := append(append([]byte{}, reqA...), reqB...)
+	// the first 6 bytes of A with a deadline error, then the rest of A and B
+	srvEmitScript(g, 0, []srvEvent{{ab[:6], true}, {ab[6:], false}})
+	srvEmitScript(g, 0, []srvEvent{{ab[:6], true}, {nil, true}, {ab[6:], true}, {nil, true}})
+	for i := 1; i < len(ab); i++ { // every single cut x every combination of errors
+		for f := 0; f < 4; f++ {
+			srvEmitScript(g, 0, []srvEvent{{ab[:i], f&1 != 0}, {ab[i:], f&2 != 0}})
+		}
+	}
+	for i := 0; i < 256; i++ { // cut sets of the 12-byte request, every read with the deadline error
+		mask := i * 8
+		var cuts []int
+		for j := 1; j < len(reqA); j++ {
+			if mask&(1<<uint(j-1)) != 0 {
+				cuts = append(cuts, j)
+			}
+		}
+		srvEmitScript(g, 0, srvEvents(rs, srvCut(reqA, cuts), 1+i%2, i%4 == 0))
+	}
+	for _, fc := range srvFcs {
+		for size := 0; size < 3; size += 2 {
+			s := srvLegal(rs, fc, srvTid(rs, false)&^4, size)
+			srvEmitScript(g, 0, srvEvents(rs, [][]byte{s}, 1, false))
+			srvEmitScript(g, 0, srvEvents(rs, srvCut(s, srvRandomCuts(rs, len(s))), 2, true))
+		}
+	}
+	for i := 0; i < 250*vol; i++ {
+		o := srvStreamOpts{maxFrames: 4, allowPanic: i%4 == 0, size: []int{0, 0, -1}[i%3], badPct: 25, tailPct: 25}
+		s := srvStream(rs, o)
+		srvEmitScript(g, 0, srvEvents(rs, srvLockstepChunks(rs, s), 2, i%2 == 0))
+		srvEmitScript(g, 0, srvEvents(rs, srvCut(s, srvRandomCuts(rs, len(s))), 1+i%2, true))
+		srvEmitScript(g, 0, srvEvents(rs, [][]byte{s}, 1, false)) // longer than 300: split by the script
+	}
+	for v := 0; v < vol; v++ {
+		n := 0
+		srvOversizeStreams(rs, func(s []byte) {
+			if n%4 == 0 {
+				srvEmitScript(g, 0, srvEvents(rs, srvCut(s, srvRandomCuts(rs, len(s))), 2, true))
+				srvEmitScript(g, 0, srvEvents(rs, srvFixedChunks(s, 300), 1, false))
+			}
+			n++
+		})
+	}
 	ok := g.stop()
+
+	// --- a handler slower than the write timeout (20 ms / 60 ms): every request is still answered ---
+	g2 := newSrvRig(2)
+	for i := 0; i < 4*vol; i++ {
+		s := srvStream(rs, srvStreamOpts{maxFrames: 3, size: 0, badPct: 15})
+		srvEmitConn(g2, 2, 0, srvLockstepChunks(rs, s))
+		srvEmitConn(g2, 2, 1, srvCut(s, srvRandomCuts(rs, len(s))))
+		srvEmitScript(g2, 2, srvEvents(rs, srvCut(s, srvRandomCuts(rs, len(s))), 2, true))
+		srvEmitScript(g2, 2, srvEvents(rs, srvLockstepChunks(rs, s), 0, false))
+	}
+	ok = g2.stop() && ok
+
 	g1 := newSrvRig(1) // the silent handler: no Write call at all
 	for i := 0; i < 10*vol; i++ {
 		s := srvStream(r, srvStreamOpts{maxFrames: 3, size: 0, tailPct: 20})
